@@ -153,6 +153,21 @@ Theorem fuse_redirects_code : forall cs j1 js n, exact cs n -> pexact n ->
 Proof. intros. now apply step_model_eq_spec. Qed.
 Print Assumptions fuse_redirects_code.
 
+(* select_subnet = restriction to the region: an element row (without pipe reference) is in the subnet iff it has a
+   junction reference and ALL its junction references are selected; the junctions are the selected ones.  For a region
+   closed under element connections these are exactly the region's rows, so by C04 (reduce_eq_delete: the reduced
+   system of a net with an unsupplied / absent rest is the system of the region) pipeflow on the subnet is the region's
+   calculation - that last step is observed by the subnet monitor, not proved here.  Stated for the specification
+   semantics; equal to the code by model_meets_spec. *)
+Theorem subnet_of_supplied_region : forall cs js n,
+  (forall tn r, special tn = false -> (forall c, In c (r_cells r) -> c_kind c <> KP) ->
+     (In r (rows_of tn (step spec_sem (Select cs js) n)) <->
+      In r (rows_of tn n) /\ (exists c, In c (r_cells r) /\ c_kind c = KJ) /\
+      (forall c, In c (r_cells r) -> c_kind c = KJ -> In (c_val c) js))) /\
+  (forall l, In l (labels_of "junction" (step spec_sem (Select cs js) n)) <-> In l (labels_of "junction" n) /\ In l js).
+Proof. intros. split; [intros tn r; apply subnet_rows | intros l; apply subnet_junctions]. Qed.
+Print Assumptions subnet_of_supplied_region.
+
 (* non-vacuity: without the valve the witness satisfies every hypothesis used above, for today's tuple set *)
 Example hypotheses_satisfiable :
   exact today_cs witness_no_valve /\ RI witness_no_valve /\
